@@ -384,6 +384,44 @@ class Region2Slices(Contract):
         st.assume, st.ghost = assume, ghost
         return st
 
+    def bind(s, E, selfobj, args, kw):
+        """use sites: the lattice coordinates of the region are read off syntactically ((corner - pmin)/cell must cancel to
+        an integer term), otherwise the contract is not applicable there"""
+        from pyvc.core import cancel, int_of
+        st = State(selfobj, args, kw)
+        pmin, pmax, n = mesh_geometry(selfobj)
+        cell = selfobj.ghost['cell'] if hasattr(selfobj, 'ghost') and selfobj.ghost.get('cell') else None
+        box = args[0].attrs
+        a, b = [], []
+        for j in range(len(n)):
+            c = R(cell[j]) if cell else None
+            if c is None:
+                raise Unsupported('Mesh.region2slices use site: cell size of the mesh not known syntactically')
+            def quot(num):
+                num = z3.simplify(toreal(num), som=True)
+                if z3.is_rational_value(num) and num.as_fraction() == 0:
+                    return z3.RealVal(0)
+                return cancel(num, toreal(c))
+            qa = quot(R(box['_pmin'].elems[j]) - R(pmin[j]))
+            qb = quot(R(box['_pmax'].elems[j]) - R(pmin[j]))
+            ia = int_of(z3.simplify(qa)) if qa is not None else None
+            ib = int_of(z3.simplify(qb)) if qb is not None else None
+            if ia is None or ib is None:
+                raise Unsupported('Mesh.region2slices use site: region not syntactically on the cell lattice')
+            a.append(Sym(z3.simplify(ia), 'int'))
+            b.append(Sym(z3.simplify(ib), 'int'))
+        st.ghost = (a, b)
+        return st
+
+    def requires(s, E, st):
+        a, b = st.ghost
+        n = st.self.attrs['_n'].elems
+        return [z3.And(I(x) >= 0, I(x) < I(y), I(y) <= I(k)) for x, y, k in zip(a, b, n)]
+
+    def fresh_result(s, E, st):
+        a, b = st.ghost
+        return tuple(slice(E.pyscalar(x), E.pyscalar(y)) for x, y in zip(a, b))
+
     def frame(s, E, st):
         return [('self', st.self), ('region', st.args[0])]
 
@@ -673,6 +711,41 @@ class FieldPad(Contract):
         st.assume, st.mode = assume, cfg['mode']
         st.widths = {dims.index(k): v for k, v in pw.items()}
         return st
+
+    def bind(s, E, selfobj, args, kw):
+        st = State(selfobj, args, kw)
+        a = dict(zip(['pad_width', 'mode'], args))
+        a.update(kw)
+        if any(k_ not in ('pad_width', 'mode') for k_ in a):
+            raise Unsupported('Field.pad use site with extra np.pad keywords')
+        dims = selfobj.attrs['_mesh'].attrs['_region'].attrs['_dims']
+        st.mode = a['mode']
+        st.args = [a['pad_width'], a['mode']]
+        st.kw = {}
+        st.widths = {dims.index(k_): v for k_, v in a['pad_width'].items() if k_ in dims}
+        if len(st.widths) != len(a['pad_width']) or st.mode not in PAD_MODES:
+            raise Unsupported('Field.pad use site outside the modelled forms')
+        return st
+
+    def requires(s, E, st):
+        return [not st.self.attrs['_mesh'].attrs['_subregions']] + [z3.And(I(a) >= 0, I(b) >= 0) for a, b in st.widths.values()]
+
+    def fresh_result(s, E, st):
+        """the padded field: mesh as the Mesh.pad contract says, values and validity DEFINED by the padding mode
+        (exactly the clauses 'every cell (halo included) follows padding mode ...' of the post-condition)"""
+        f = st.self
+        m = f.attrs['_mesh']
+        mp = MeshPad()
+        rm = mp.fresh_result(E, mp.bind(E, m, [st.args[0]], {}))
+        d = len(m.attrs['_n'].elems)
+        seq_a = tuple(tuple(st.widths.get(j, (0, 0))) for j in range(d)) + ((0, 0),)
+        seq_v = tuple(tuple(st.widths.get(j, (0, 0))) for j in range(d))
+        arr = E.np_pad([f.attrs['_array'], seq_a], {'mode': st.mode})
+        val = E.np_pad([f.attrs['_valid'], seq_v], {'mode': st.mode})
+        res = Obj('Field', {'_mesh': rm, '_nvdim': f.attrs['_nvdim'], 'dtype': f.attrs.get('dtype'), '_unit': f.attrs.get('_unit'), '_valid': val, '_array': arr,
+                            '_vdims': list(f.attrs['_vdims']) if f.attrs['_vdims'] is not None else None, '_vdim_mapping': dict(f.attrs['_vdim_mapping'])})
+        res.modelled_state = True
+        return res
 
     def frame(s, E, st):
         return [('self', st.self)]
